@@ -506,6 +506,9 @@ pub fn run_check(prop: &Prop, thorough: bool, verif_seed: u64, jobs: usize, scal
         fp = hash_step(fp, *v);
     }
     println!("FINGERPRINT {} {:016x}", prop.id, fp);
+    if foreign_total > 0 {
+        println!("WARNING: {} runs ended as foreign aborts (set-up failed or another property's oracle tripped): {:?}", foreign_total, agg.foreign.iter().take(4).collect::<Vec<_>>());
+    }
     if exit == 0 && agg.sigs.len() < 2 {
         eprintln!("HARNESS-ERROR fewer than 2 distinct non-trivial runs");
         return CheckResult { exit: 2 };
